@@ -21,6 +21,9 @@ package dhcp
 //@   owns leasesMu: leases
 //@   owns leasesByCircuitIDMu: leasesByCircuitID
 //@   inv sep: self.leases != self.leasesByCircuitID
+// the relay index files every lease under the hex form of the circuit-id the lease carries (so a
+// lookup can only return a lease of the line asked for: "each relay circuit-id key identifies one line")
+//@   inv cidkey: forall k string :: k in self.leasesByCircuitID && self.leasesByCircuitID[k] != nil ==> k == hexstr(self.leasesByCircuitID[k].CircuitID)
 
 //@ type Pool
 //@   owns mu: allocated available unavailable
@@ -199,6 +202,8 @@ package dhcp
 
 //@ func (s *Server) lookupLeaseByCircuitID
 //@   modifies s.leasesByCircuitID
+// the lease found through the index is a lease of the circuit asked for (never another line's)
+//@   ensures result != nil ==> hexstr(result.CircuitID) == hexstr(circuitID)
 
 //@ func (s *Server) buildNAK
 //@   modifies nothing
@@ -236,6 +241,11 @@ package dhcp
 // line). Acknowledging its address to the new MAC must not leave the old MAC's entry in the lease
 // table: "never holds two unexpired bindings on one address".
 //@   ensures s.acksTotal == old(s.acksTotal) + 1 && existingLease != nil && existingLease.MAC != nil && macstr(existingLease.MAC) != macstr(mac) ==> macstr(existingLease.MAC) !in s.leases
+// A binding that continues under a different circuit-id (or without one) leaves the relay index of
+// its old circuit: otherwise the old key keeps naming a lease object that has left the lease table,
+// survives RELEASE / expiry and later hands the address to a second client ("never two unexpired
+// bindings on one address"). Release 3 is the critical section that retires the old key.
+//@   ensures s.acksTotal == old(s.acksTotal) + 1 && existingLease != nil && len(existingLease.CircuitID) > 0 && (len(lease.CircuitID) == 0 || hexstr(existingLease.CircuitID) != hexstr(lease.CircuitID)) ==> unlockedN(3, !(hexstr(existingLease.CircuitID) in s.leasesByCircuitID) || s.leasesByCircuitID[hexstr(existingLease.CircuitID)] != existingLease)
 //@   ensures s.acksTotal == old(s.acksTotal) + 1 ==> (existingLease != nil && ipkey(existingLease.IP) == ipkey(requestedIP)) || poolOwner == 1 || old(s.httpAllocator != nil && s.httpAllocatorPool != "")
 
 // The OFFER path of handleDiscover (the only place that increments offersTotal)
